@@ -98,6 +98,7 @@ fn main() {
                 cfg0.ka = 2;
             }
             let mut bad = 0;
+            let mut skipped = 0;
             for i in 0..count {
                 let s = seed.wrapping_mul(7_000_003).wrapping_add(i as u64);
                 let program = if cuts { rnd::twin_program_with(s, 12 + (i % 7), cfg0.rx, 9) }
@@ -123,13 +124,24 @@ fn main() {
                     dir = dir.with_cuts(s);
                 }
                 let base = runner::run_scenario(&cfg, Box::new(dir));
+                // A request refused for lack of a slot or of window is not comparable: the runs of a
+                // pair consume acknowledgements at different moments (the continuation calls after a
+                // cancellation are extra polls), so one may have room where the other has not.
+                let mut limited = false;
                 for res in [&base, &variant] {
                     if res.mismatch.is_some() || res.panicked.is_some() || res.watchdog { bad += 1; }
-                    for l in &res.lines { writeln!(out, "{l}").unwrap(); }
+                    for l in &res.lines {
+                        if l.contains("\"InflightExhausted\"") || l.contains("\"NotReady\"") { limited = true; }
+                        writeln!(out, "{l}").unwrap();
+                    }
                 }
-                writeln!(out, "{}", serde_json::json!({"e":"twin","kind":args[2],"dropped":skip.len()})).unwrap();
+                if limited {
+                    skipped += 1;
+                } else {
+                    writeln!(out, "{}", serde_json::json!({"e":"twin","kind":args[2],"dropped":skip.len()})).unwrap();
+                }
             }
-            eprintln!("ran {count} twin pairs ({}), {bad} runs with mismatch/panic/watchdog", args[2]);
+            eprintln!("ran {count} twin pairs ({}), {skipped} not compared (a request met a full window), {bad} runs with mismatch/panic/watchdog", args[2]);
         }
         // mqv aged <seed> <count> <profile.json|-> <trace-out.ndjson> <cfgs.ndjson> [keep]
         "aged" => {
